@@ -12,7 +12,7 @@ IMPORTS = 'Require Import V.Base.MachineInt V.Model.Counters V.Oracle.C15Oracle.
 RULE = ('histories of allocate_opt / free / set_counter_value / clock-set / dump on a CountersManager over fresh buffers of nm x 512 and '
         'nv x 128 bytes (nm, nv independent). quick: every word of length <= 3 over a 10-letter alphabet {alloc plain, alloc with key, '
         'alloc via key callback, alloc label 381, alloc key 113, free lowest / highest live, set value, clock to deadline-1, clock to '
-        'deadline} on 5 slot-count pairs from 1..4 (thorough: length <= 5, all 16 pairs), each ending in a dump; plus random histories '
+        'deadline} on 4 slot-count pairs from 1..3 (thorough: length <= 5, all 16 pairs), each ending in a dump; plus random histories '
         'of 10..200 operations on 1..16 slots (cool-down 0, 1, 10, 1000, 2^62; labels of 0, 1, 379..381 bytes or with a NUL; keys of '
         '0, 8, 111..113 bytes by slice, by callback or both; values 0, 1, 2^63, 2^64-1; clock moved to just before / at / after a pending '
         'deadline, or backwards) with a dump every few operations and at the end. ids for free/set are taken from a reference '
@@ -192,7 +192,7 @@ def generate(rng, tier):
             if c:
                 c['kind'] = 'boundary'
                 cases.append(c)
-    pairs = [(a, b) for a in range(1, 5) for b in range(1, 5)] if big else [(1, 1), (2, 2), (2, 3), (3, 2), (4, 4)]
+    pairs = [(a, b) for a in range(1, 5) for b in range(1, 5)] if big else [(1, 1), (2, 2), (2, 3), (3, 2)]
     maxlen = 5 if big else 3
     for nm, nv in pairs:
         for ln in range(1, maxlen + 1):
@@ -200,13 +200,16 @@ def generate(rng, tier):
                 c = word_case(nm, nv, 10, word)
                 if c:
                     cases.append(c)
-    nrand = 4000 if big else 160
+    nrand = 4000 if big else 140
     for i in range(nrand):
         nm = rng.choice([1, 2, 3, 4, 5, 8, 16])
         nv = nm if rng.random() < 0.6 else rng.choice([1, 2, 3, 4, 5, 8, 16])
         timeout = rng.choice([0, 1, 10, 10, 1000, 2 ** 62])
         length = rng.choice([10, 20, 40, 80] + ([200] if (big or i % 13 == 0) else []))
         cases.append(random_history(rng, nm, nv, timeout, length, rng.choice([5, 10, 20])))
+    # 2^24 failed allocations on a full manager (the high water mark of the unrepaired code wraps the i32 offsets there)
+    cases.append({'kind': 'flood', 'nm': 1, 'nv': 1, 'count': 2 ** 24})
+    cases.append({'kind': 'flood', 'nm': 2, 'nv': 3, 'count': 1000})
     # spread the long histories over the evaluation shards
     head, tail = cases[:36], cases[36:]
     rng.shuffle(tail)
@@ -217,6 +220,8 @@ def generate(rng, tier):
 # rendering
 
 def impl_line(c):
+    if c['kind'] == 'flood':
+        return 'flood %d %d %d' % (c['nm'], c['nv'], c['count'])
     toks = []
     for o in c['ops']:
         toks.append(','.join(str(x) for x in o))
@@ -255,16 +260,18 @@ def mode_c(mode):
 
 
 def model_expr(c, mode):
+    if c['kind'] == 'flood':
+        return 'flood_obs %s %s' % (z(c['nm']), z(c['nv']))
     return 'run %s %s (mgr0 %s %s %s)' % (mode_c(mode), ops_coq(c), z(c['nm']), z(c['nv']), z(c['timeout']))
 
 
-def oracle_expr(c, mode, obs):
-    if isinstance(obs, int) or obs[0] != 'list':
-        return 'false'
+XX
     return 'holds %s %s %s %s %s' % (z(c['nm']), z(c['nv']), z(c['timeout']), ops_coq(c), to_coq(obs))
 
 
 def nontrivial(c):
+    if c['kind'] == 'flood':
+        return True
     freed = False
     for o in c['ops']:
         if o[0] == 'F':
@@ -275,6 +282,8 @@ def nontrivial(c):
 
 
 def shrink(c):
+    if c['kind'] == 'flood':
+        return []
     out = []
     ops = c['ops']
     for i in range(len(ops) - 1):
